@@ -215,10 +215,11 @@ func runCheck(cfg *RunConfig) int {
 			aborted: map[string]int{}, abortMsgs: map[string]int{}, labels: map[string]*labelStat{},
 			covers: map[string]*Scenario{}, coverHits: map[string]int{}, knownHits: map[string]*Scenario{},
 			entered: map[string]int{}, intrinsics: map[string]int{}, mapRanges: map[string]int{}, shapes: map[string]int{},
-			fuzzBudget: 30000, seed: seed, failFastAfter: 8}
+			fuzzBudget: 30000, seed: seed, failFastAfter: 8, crossEvery: 100}
 		if cfg.Tier == "thorough" {
 			h.assertTimeoutMs = 120000
 			h.feasTimeoutMs = 5000
+			h.crossEvery = 100
 		}
 		if len(cfg.Groups) > 0 {
 			h.groups = map[string]bool{}
@@ -248,6 +249,10 @@ func runCheck(cfg *RunConfig) int {
 		}
 		for m, n := range h.abortMsgs {
 			fmt.Printf("    %dx %s\n", n, m)
+		}
+		if h.disagreements > 0 {
+			fmt.Printf("  SOLVER-DISAGREEMENT: %d of %d cross-checked obligations\n", h.disagreements, h.crossChecked)
+			exit = 2
 		}
 		if h.failFast {
 			fmt.Printf("  FAIL-FAST: exploration stopped after %d counterexamples\n", h.violCount)
@@ -535,7 +540,8 @@ func writeEvidence(cfg *RunConfig, runs []*HarnessRun, seed int, wall float64, v
 		harnessSummaries = append(harnessSummaries, map[string]interface{}{
 			"harness": h.name, "bounds": h.params, "paths": h.paths, "completed": h.completed, "infeasible": h.infeasible, "panicked_paths": h.panicked,
 			"aborted": h.aborted, "labels": lab, "covers_reached": h.coverHits, "shapes": len(h.shapes), "path_limit_hit": h.pathLimitHit,
-			"feasibility_unknown": h.feasUnknown,
+			"feasibility_unknown":            h.feasUnknown,
+			"cross_checked_by_second_solver": h.crossChecked, "solver_disagreements": h.disagreements,
 		})
 	}
 	if states == 0 {
